@@ -85,6 +85,8 @@ type Monitor struct {
 	statusOf             map[string]int
 	lastBankBad          bool
 	lastHash, lastHashOp string
+	confs                map[string]string
+	regBy                map[string]string
 	obefore              *oracleSnap
 	pclaims              []oclaim
 	hclaims              []oclaim
@@ -285,7 +287,7 @@ func (m *Monitor) Before(g *Gen, line string) {
 		return
 	}
 	switch w[0] {
-	case "send", "cancel", "reqbatch", "begin", "end", "vote", "fund":
+	case "send", "cancel", "reqbatch", "begin", "end", "vote", "fund", "confirm", "delegate", "q_confs", "q_unsigned_sets", "q_unsigned_batches", "staking":
 		m.before = m.snap(g)
 	default:
 		m.before = nil
@@ -340,8 +342,385 @@ func (m *Monitor) After(g *Gen, line, out string) {
 		m.checkC01(g, w, out, b, a)
 	case "C03", "C02":
 		m.checkVotes(g, w, out, b, a)
+	case "C09":
+		m.checkC09(g, w, out, b, a)
+	case "C16":
+		m.checkC16(g, w, out, b, a)
+	case "C17":
+		m.checkC17(g, w, out, b, a)
 	}
 	m.before = nil
+}
+
+// ---------------------------------------------------------------- C09 signer sets
+
+func (m *Monitor) keysOf(g *Gen, chain string) (valExt map[string]string, orchVal map[string]string, extOrch map[string]string) {
+	valExt, orchVal, extOrch = map[string]string{}, map[string]string{}, map[string]string{}
+	e := g.env
+	e.iterPrefix(e.ctx, append([]byte{types.ValidatorExternalAddressKey}, []byte(chain)...), func(k, v []byte) { valExt[hex.EncodeToString(k)] = ethHex(v) })
+	e.iterPrefix(e.ctx, append([]byte{types.OrchestratorValidatorAddressKey}, []byte(chain)...), func(k, v []byte) { orchVal[hex.EncodeToString(k)] = hex.EncodeToString(v) })
+	e.iterPrefix(e.ctx, append([]byte{types.ExternalOrchestratorAddressKey}, []byte(chain)...), func(k, v []byte) { extOrch[ethHex(k)] = hex.EncodeToString(v) })
+	return
+}
+
+const maxU32 = 4294967295
+
+func (m *Monitor) checkC09(g *Gen, w []string, out string, b, a *snapshot) {
+	for _, c := range g.chains {
+		if c == "hub" {
+			continue
+		}
+		old := map[uint64]bool{}
+		maxOld := uint64(0)
+		for _, s := range b.sets[c] {
+			old[s.Nonce] = true
+			if s.Nonce > maxOld {
+				maxOld = s.Nonce
+			}
+		}
+		valExt, _, _ := m.keysOf(g, c)
+		// expected current set from the staking view
+		type mem struct {
+			addr  string
+			power uint64
+		}
+		var cur []mem
+		total := uint64(0)
+		for _, v := range g.env.staking.vals {
+			hx := fmt.Sprintf("%x", []byte(v.addr))
+			if v.bonded {
+				if e, ok := valExt[hx]; ok && e != "0x0000000000000000000000000000000000000000" {
+					cur = append(cur, mem{e, uint64(v.power)})
+					total += uint64(v.power)
+				}
+			}
+		}
+		want := map[string]uint64{}
+		for _, x := range cur {
+			if total > 0 {
+				p := new(big.Int).Mul(new(big.Int).SetUint64(x.power), big.NewInt(maxU32))
+				p.Quo(p, new(big.Int).SetUint64(total))
+				want[x.addr] = p.Uint64()
+			}
+		}
+		for _, s := range a.sets[c] {
+			if old[s.Nonce] {
+				continue
+			}
+			if w[0] != "begin" {
+				m.report(g, "signer-set-created-outside-begin-block", fmt.Sprintf("chain %s nonce %d during %v", c, s.Nonce, w))
+			}
+			if s.Nonce <= maxOld || s.Nonce != a.lastSetNonce(g, c) {
+				m.report(g, "signer-set-nonce-not-increasing", fmt.Sprintf("chain %s nonce %d after %d", c, s.Nonce, maxOld))
+			}
+			got := map[string]uint64{}
+			sum := uint64(0)
+			for i, sg := range s.Signers {
+				if _, dup := got[sg.ExternalAddress]; dup {
+					m.report(g, "signer-set-duplicate-member", fmt.Sprintf("chain %s nonce %d %s", c, s.Nonce, sg.ExternalAddress))
+				}
+				got[sg.ExternalAddress] = sg.Power
+				sum += sg.Power
+				if i > 0 {
+					p := s.Signers[i-1]
+					if p.Power < sg.Power || (p.Power == sg.Power && !(p.ExternalAddress < sg.ExternalAddress)) {
+						m.report(g, "signer-set-not-sorted", fmt.Sprintf("chain %s nonce %d position %d", c, s.Nonce, i))
+					}
+				}
+			}
+			if sum > maxU32 {
+				m.report(g, "signer-set-total-above-2^32-1", fmt.Sprintf("chain %s nonce %d total %d", c, s.Nonce, sum))
+			}
+			if len(got) != len(want) {
+				m.report(g, "signer-set-members-not-bonded-registered", fmt.Sprintf("chain %s nonce %d has %d members, %d bonded validators registered a key", c, s.Nonce, len(got), len(want)))
+			}
+			for a2, p := range want {
+				gp, ok := got[a2]
+				if !ok {
+					m.report(g, "signer-set-members-not-bonded-registered", fmt.Sprintf("chain %s nonce %d misses %s", c, s.Nonce, a2))
+				} else if gp != p {
+					m.report(g, "signer-set-power-not-normalised", fmt.Sprintf("chain %s nonce %d %s has %d want %d", c, s.Nonce, a2, gp, p))
+				}
+			}
+		}
+		if w[0] == "begin" && out == "ok" {
+			// latest published set vs current validator set: at most 5 % of normalised power apart
+			var latest *types.SignerSetTx
+			for _, s := range a.sets[c] {
+				if latest == nil || s.Nonce > latest.Nonce {
+					latest = s
+				}
+			}
+			if latest == nil {
+				m.report(g, "no-signer-set-after-begin-block", c)
+				continue
+			}
+			lp := map[string]uint64{}
+			for _, sg := range latest.Signers {
+				lp[sg.ExternalAddress] = sg.Power
+			}
+			delta := uint64(0)
+			for a2, p := range want {
+				q := lp[a2]
+				if p > q {
+					delta += p - q
+				} else {
+					delta += q - p
+				}
+			}
+			for a2, q := range lp {
+				if _, ok := want[a2]; !ok {
+					delta += q
+				}
+			}
+			if 20*delta > maxU32 {
+				m.report(g, "latest-set-more-than-5-percent-stale", fmt.Sprintf("chain %s latest nonce %d differs by %d of %d", c, latest.Nonce, delta, uint64(maxU32)))
+			}
+		}
+	}
+}
+
+func (s *snapshot) lastSetNonce(g *Gen, chain string) uint64 {
+	return g.env.k.GetLatestSignerSetTxNonce(g.env.ctx, types.ChainID(chain))
+}
+
+// ---------------------------------------------------------------- C16 confirmations
+
+func (m *Monitor) checkC16(g *Gen, w []string, out string, b, a *snapshot) {
+	switch w[0] {
+	case "confirm":
+		chain, signer := w[1], w[2]
+		var key, ext, sig string
+		exists := false
+		if w[3] == "set" {
+			key, ext, sig = "set/"+w[4], w[5], w[6]
+			for _, s := range b.sets[chain] {
+				if fmt.Sprint(s.Nonce) == w[4] {
+					exists = true
+				}
+			}
+		} else {
+			key, ext, sig = "batch/"+w[4]+"/"+w[5], w[6], w[7]
+			for _, x := range b.batches[chain] {
+				if x.extToken == w[4] && fmt.Sprint(x.nonce) == w[5] {
+					exists = true
+				}
+			}
+		}
+		valExt, orchVal, _ := m.keysOf(g, chain)
+		val := signer
+		if v, ok := orchVal[signer]; ok {
+			val = v
+		}
+		bonded := false
+		for _, v := range g.env.staking.vals {
+			if fmt.Sprintf("%x", []byte(v.addr)) == val && v.bonded {
+				bonded = true
+			}
+		}
+		reg, hasReg := valExt[val]
+		if !hasReg {
+			reg = "0x0000000000000000000000000000000000000000"
+		}
+		ck := chain + "/" + key + "/" + val
+		_, dup := m.confs[ck]
+		knownChain := false
+		for _, c := range g.chains {
+			if c == chain {
+				knownChain = true
+			}
+		}
+		should := knownChain && bonded && exists && hasReg && reg == ext && !dup
+		if out == "ok" {
+			switch {
+			case !exists:
+				m.report(g, "confirmation-for-unknown-outgoing-tx", fmt.Sprintf("%v", w))
+			case !bonded:
+				m.report(g, "confirmation-from-unbonded-or-foreign-signer", fmt.Sprintf("%v", w))
+			case reg != ext:
+				m.report(g, "confirmation-with-foreign-signer-address", fmt.Sprintf("%v registered %s", w, reg))
+			case dup:
+				m.report(g, "second-confirmation-by-one-validator", fmt.Sprintf("%v", w))
+			case !hasReg:
+				m.report(g, "confirmation-by-validator-without-registered-key", fmt.Sprintf("%v (matches the zero address)", w))
+			}
+			if m.confs == nil {
+				m.confs = map[string]string{}
+			}
+			m.confs[ck] = sig
+		} else if should && out == "err" {
+			m.report(g, "valid-confirmation-refused", fmt.Sprintf("%v", w))
+		}
+	case "q_confs":
+		chain := w[1]
+		key := "set/" + w[3]
+		if w[2] == "batch" {
+			key = "batch/" + w[3] + "/" + w[4]
+		}
+		valExt, _, _ := m.keysOf(g, chain)
+		want := map[string]bool{}
+		for k, sig := range m.confs {
+			pre := chain + "/" + key + "/"
+			if strings.HasPrefix(k, pre) {
+				val := strings.TrimPrefix(k, pre)
+				e := valExt[val]
+				if e == "" {
+					e = "0x0000000000000000000000000000000000000000"
+				}
+				want[e+"="+sig] = true
+			}
+		}
+		got := map[string]bool{}
+		body := strings.TrimPrefix(out, "confs ")
+		if body != "" && body != "confs" {
+			for _, it := range strings.Split(body, ";") {
+				got[it] = true
+			}
+		}
+		if len(got) != len(want) {
+			m.report(g, "confirmations-query-wrong", fmt.Sprintf("%v returned %v expected %v", w, out, want))
+		}
+		for k := range want {
+			if !got[k] {
+				m.report(g, "confirmations-query-wrong", fmt.Sprintf("%v returned %v expected %v", w, out, want))
+			}
+		}
+	case "q_unsigned_sets", "q_unsigned_batches":
+		if !strings.HasPrefix(out, "unsigned") {
+			return
+		}
+		chain, signer := w[1], w[2]
+		_, orchVal, _ := m.keysOf(g, chain)
+		val := signer
+		if v, ok := orchVal[signer]; ok {
+			val = v
+		}
+		want := map[string]bool{}
+		if w[0] == "q_unsigned_sets" {
+			for _, s := range a.sets[chain] {
+				if _, ok := m.confs[fmt.Sprintf("%s/set/%d/%s", chain, s.Nonce, val)]; !ok {
+					want[fmt.Sprint(s.Nonce)] = true
+				}
+			}
+		} else {
+			for _, x := range a.batches[chain] {
+				if _, ok := m.confs[fmt.Sprintf("%s/batch/%s/%d/%s", chain, x.extToken, x.nonce, val)]; !ok {
+					want[fmt.Sprintf("%s/%d", x.extToken, x.nonce)] = true
+				}
+			}
+		}
+		got := map[string]bool{}
+		body := strings.TrimSpace(strings.TrimPrefix(out, "unsigned"))
+		if body != "" {
+			for _, it := range strings.Split(body, ",") {
+				got[it] = true
+			}
+		}
+		same := len(got) == len(want)
+		for k := range want {
+			if !got[k] {
+				same = false
+			}
+		}
+		if !same {
+			m.report(g, "unsigned-query-wrong", fmt.Sprintf("%v returned %q expected %v", w, out, want))
+		}
+	}
+}
+
+// ---------------------------------------------------------------- C17 delegate keys
+
+func (m *Monitor) checkC17(g *Gen, w []string, out string, b, a *snapshot) {
+	switch w[0] {
+	case "delegate":
+		// delegate chain val orch eth signedBy signedVal signedNonce accSeq
+		chain, val, orch, eth := w[1], w[2], w[3], w[4]
+		seq, _ := strconv.ParseUint(w[8], 10, 64)
+		nonce, _ := strconv.ParseUint(w[7], 10, 64)
+		wantNonce := uint64(0)
+		if seq > 0 {
+			wantNonce = seq - 1
+		}
+		sigOK := w[5] == eth && w[6] == val && nonce == wantNonce
+		known := false
+		for _, v := range g.env.staking.vals {
+			if fmt.Sprintf("%x", []byte(v.addr)) == val {
+				known = true
+			}
+		}
+		if out == "ok" {
+			if !sigOK {
+				m.report(g, "binding-without-key-signature-over-validator-and-sequence", fmt.Sprintf("%v", w))
+			}
+			if !known {
+				m.report(g, "binding-for-unknown-validator", fmt.Sprintf("%v", w))
+			}
+		}
+		valExt, orchVal, extOrch := m.keysOf(g, chain)
+		// one-to-one: an external address belongs to at most one validator
+		seen := map[string]string{}
+		for v, e := range valExt {
+			if o, dup := seen[e]; dup {
+				m.report(g, "external-address-bound-to-two-validators", fmt.Sprintf("chain %s %s: %s and %s", chain, e, o, v))
+			}
+			seen[e] = v
+		}
+		// an orchestrator account is bound (through the current bindings) to at most one validator
+		byOrch := map[string]string{}
+		for v, e := range valExt {
+			if o, ok := extOrch[e]; ok {
+				if p, dup := byOrch[o]; dup && p != v {
+					m.report(g, "orchestrator-bound-to-two-validators", fmt.Sprintf("chain %s orchestrator %s: %s and %s", chain, o, p, v))
+				}
+				byOrch[o] = v
+				if orchVal[o] != v {
+					m.report(g, "registry-maps-inconsistent", fmt.Sprintf("chain %s validator %s ext %s orch %s resolves to %s", chain, v, e, o, orchVal[o]))
+				}
+			} else {
+				m.report(g, "registry-maps-inconsistent", fmt.Sprintf("chain %s validator %s ext %s has no orchestrator", chain, v, e))
+			}
+		}
+		if out == "ok" {
+			if valExt[val] != eth || extOrch[eth] != orch || orchVal[orch] != val {
+				m.report(g, "binding-not-stored", fmt.Sprintf("%v", w))
+			}
+			if m.regBy == nil {
+				m.regBy = map[string]string{}
+			}
+			m.regBy[chain+"/"+orch] = val
+		}
+	case "vote":
+		if out != "ok" {
+			return
+		}
+		// attribution: the vote is recorded for the validator that registered the signing orchestrator
+		chain, signer := w[1], w[2]
+		want := signer
+		if v, ok := m.regBy[chain+"/"+signer]; ok {
+			want = v
+		}
+		nonce, _ := strconv.ParseUint(w[4], 10, 64)
+		found := false
+		for _, r := range a.records[chain] {
+			if r.nonce != nonce {
+				continue
+			}
+			bv := 0
+			for _, r0 := range b.records[chain] {
+				if r0.nonce == r.nonce && string(r0.hash) == string(r.hash) {
+					bv = len(r0.rec.Votes)
+				}
+			}
+			if len(r.rec.Votes) > bv {
+				if g.env.toHexAcc(r.rec.Votes[len(r.rec.Votes)-1]) == want {
+					found = true
+				}
+			}
+		}
+		if !found {
+			m.report(g, "vote-attributed-to-wrong-validator", fmt.Sprintf("%v expected validator %s", w, want))
+		}
+	}
 }
 
 // ---------------------------------------------------------------- C18 (oracle)
